@@ -736,4 +736,20 @@ def blockingSendCounters (cfg : Cfg) (rx : RxKind) (prefill : Nat) (x : Nat) : N
   let b := (sendOrWaitFirst cfg { st := prefillState cfg rx prefill, mBlocked := 0 } x).1
   (b.st.mTruncated, b.mBlocked)
 
+/-! ### `BatchError<T>`: what a processor can hand back (lib.rs:495-545) -/
+
+/-- `BatchError { retryable: Option<T> }` — the error value itself is not kept. -/
+structure BErr (T : Type) where
+  retryable : Option T
+  deriving Repr, DecidableEq
+
+def BErr.noRetry {T : Type} : BErr T := ⟨none⟩
+def BErr.retry {T : Type} (rem : T) : BErr T := ⟨some rem⟩
+/-- `map_retryable`: `f` always runs, on `Some` or on `None` -/
+def BErr.mapRetryable {T U : Type} (e : BErr T) (f : Option T → Option U) : BErr U := ⟨f e.retryable⟩
+def BErr.tryIntoRetryable {T : Type} (e : BErr T) : Except (BErr T) T :=
+  match e.retryable with
+  | some r => .ok r
+  | none => .error ⟨none⟩
+
 end EmitModel.Batcher
